@@ -119,13 +119,16 @@ def compare(rep, c, prop, rule):
             if len(cands) == 1:
                 f = idx[cands[0]]
                 rep.notes.append("table for %s matched to moved function %s" % (name, cands[0]))
+        if f is None and ent.get("only_in") and ent["only_in"] != getattr(c, "config", "baseline"):
+            continue   # a unit that exists only under a feature this configuration does not enable
         if f is None:
             rep.add("%s|trace|missing-fn" % name, rule, False,
                     "anchor-lost: function %s (spec table '%s') no longer exists: its wire schedule cannot be compared" % (name, ent.get("table", "")))
             continue
         n_fns += 1
         cur = rows_of(c, f, ent)
-        want = ent["rows"]
+        # code under #[cfg(feature = ..)] differs between build configurations: such units carry one table per configuration
+        want = ent.get("rows@" + getattr(c, "config", "baseline"), ent["rows"])
         n_rows += len(want)
         if cur == want:
             for i, r in enumerate(want):
